@@ -20,7 +20,7 @@ Effect(e) == CASE e.a = "W" -> WLEff(e.l, e.s) [] e.a = "T" -> TrigEff [] e.a = 
 TNext ==
   /\ l <= Len(TraceLog) /\ l' = l + 1 /\ UNCHANGED hist
   /\ LET e == TraceLog[l] IN
-     IF e.a = "Reset"
+     IF e.a \in {"Reset", "Reset2"}      \* Reset2: the history of the companion writer that lived at the same time (same contract, own state)
      THEN conf' = ByName(e.conf) /\ held' = <<>> /\ triggered' = FALSE /\ out' = <<>> /\ failed' = FALSE /\ UNCHANGED bad
      ELSE IF failed THEN UNCHANGED <<conf, held, triggered, out, failed, bad>>
      ELSE IF Guard(e) THEN Effect(e) /\ UNCHANGED <<failed, bad>>
